@@ -22,9 +22,26 @@ type viol struct {
 	Class  string `json:"class"`
 	Sig    string `json:"sig"` // normalised cause (error text without numbers/hex/quoted strings/type names)
 	Type   string `json:"type"`
-	Input  string `json:"input"` // hex bytes or value description
-	Len    int    `json:"len"`
+	Input  string `json:"input"`           // witness: hex of the input bytes (byte string fed to the decoders / canonical encoding of the offending value); "value(<description>)" only when the value has no encoding at all
+	Len    int    `json:"len"`             // number of input bytes (description length when Desc)
+	Desc   bool   `json:"desc,omitempty"`  // Input is a value description, not bytes (ordered after all byte witnesses)
+	Value  string `json:"value,omitempty"` // value description for value-level checks
 	Detail string `json:"detail"`
+}
+
+// less is the witness order: byte witnesses before descriptions, shorter input first, then type name, then input.
+// The smallest witness of a (class, cause) pair is part of the violation key.
+func (v *viol) less(w *viol) bool {
+	if v.Desc != w.Desc {
+		return !v.Desc
+	}
+	if v.Len != w.Len {
+		return v.Len < w.Len
+	}
+	if v.Type != w.Type {
+		return v.Type < w.Type
+	}
+	return v.Input < w.Input
 }
 
 type result struct {
@@ -32,8 +49,9 @@ type result struct {
 	Type      int                 `json:"type"`
 	Evals     int64               `json:"evals"`
 	Decodes   int64               `json:"decodes"`
-	Values    int                 `json:"values"`   // generated values (plan) / values checked (values)
-	Distinct  int                 `json:"distinct"` // distinct valid encodings
+	Values    int                 `json:"values"`         // generated values (plan) / values checked (values)
+	Distinct  int                 `json:"distinct"`       // distinct valid encodings
+	EncH      []uint64            `json:"ench,omitempty"` // their 64-bit hashes (parent: exact count of distinct (type, encoding) pairs across tasks and phases)
 	Weight    int64               `json:"weight"`
 	Strings   int64               `json:"strings"` // distinct byte strings tried
 	Outcomes  map[string]int64    `json:"outcomes"`
@@ -56,16 +74,49 @@ type checker struct {
 func (c *checker) out(class string) { c.res.Outcomes[class]++ }
 
 func (c *checker) violation(class, input string, ilen int, detail string) {
-	c.out("VIOLATION:" + class)
-	sig := signature(detail)
-	k := class + "|" + sig
-	v := c.vmap[k]
-	if v == nil || ilen < v.Len || (ilen == v.Len && input < v.Input) {
-		if len(detail) > 600 {
-			detail = detail[:600] + "…"
-		}
-		c.vmap[k] = &viol{Class: class, Sig: sig, Type: c.reg.name, Input: input, Len: ilen, Detail: detail}
+	c.record(&viol{Class: class, Type: c.reg.name, Input: input, Len: ilen, Detail: detail})
+}
+
+// vviolation reports a value-level violation; the witness is the canonical encoding of the value when it has one.
+func (c *checker) vviolation(class string, m mv, enc []byte, detail string) {
+	if enc != nil {
+		c.record(&viol{Class: class, Type: c.reg.name, Input: hx(enc), Len: len(enc), Value: m.d, Detail: detail})
+		return
 	}
+	c.record(&viol{Class: class, Type: c.reg.name, Input: "value(" + m.d + ")", Len: len(m.d), Desc: true, Value: m.d, Detail: detail})
+}
+
+func (c *checker) record(n *viol) {
+	c.out("VIOLATION:" + n.Class)
+	n.Sig = signature(n.Detail)
+	k := n.Class + "|" + n.Sig
+	if v := c.vmap[k]; v == nil || n.less(v) {
+		if len(n.Detail) > 600 {
+			n.Detail = n.Detail[:600] + "…"
+		}
+		c.vmap[k] = n
+	}
+}
+
+// rtCause: cause tag of a round-trip value difference (none when the re-encoding itself failed: the error is the cause).
+func (c *checker) rtCause(re callRes, orig, back reflect.Value) string {
+	if re.failed() {
+		return ""
+	}
+	return c.valueCause("value differs after round trip", orig.Elem(), back.Elem())
+}
+
+// valueCause names what differs between two values that should be equal (leaf of the first structural difference,
+// without the path, so that one defect seen through many holder types is one cause).
+func (c *checker) valueCause(what string, a, b reflect.Value) string {
+	d := structDiff(a, b, "", 0)
+	if i := strings.Index(d, ": "); i >= 0 {
+		d = d[i+2:]
+	}
+	if d == "" {
+		d = "no difference in exported fields"
+	}
+	return "[[" + what + ": " + d + "]] "
 }
 
 func (c *checker) note(class, s string) {
@@ -92,6 +143,14 @@ var (
 // signature normalises the cause of a violation so that the same defect hitting many types/inputs gets one key.
 func signature(detail string) string {
 	d := detail
+	if strings.HasPrefix(d, "[[") { // explicit cause given by the oracle
+		if i := strings.Index(d, "]] "); i >= 0 {
+			d = d[2:i]
+			d = reQuoted.ReplaceAllString(d, "Q")
+			d = reNum.ReplaceAllString(d, "N")
+			return strings.Join(strings.Fields(d), " ")
+		}
+	}
 	if m := reErr.FindStringSubmatch(d); m != nil {
 		d = m[1] + m[2]
 	} else if strings.Contains(d, "bytes=") || strings.Contains(d, "-decoded=") || strings.Contains(d, "reflect=") {
@@ -224,10 +283,23 @@ func (c *checker) checkValue(m mv) (enc []byte, ok bool) {
 	p := reflect.New(c.reg.rt)
 	p.Elem().Set(m.v)
 	eR := c.encR(p)
+	if !eR.failed() && eR.bz == nil {
+		eR.bz = []byte{} // an empty encoding is still an encoding (witness of value-level violations)
+	}
 	if c.reg.native {
 		eG := c.encG(p)
+		if !eG.failed() && eG.bz == nil {
+			eG.bz = []byte{}
+		}
 		if eR.failed() != eG.failed() {
-			c.violation("encoders-disagree-on-failure", m.d, len(m.d), "reflect: "+eR.why()+" | genproto2: "+eG.why())
+			good := eR.bz // the encoding produced by the encoder that did not fail
+			if eR.failed() {
+				good = eG.bz
+			}
+			if good == nil {
+				good = []byte{}
+			}
+			c.vviolation("encoders-disagree-on-failure", m, good, "reflect: "+eR.why()+" | genproto2: "+eG.why())
 			return nil, false
 		}
 		if eR.failed() {
@@ -241,12 +313,12 @@ func (c *checker) checkValue(m mv) (enc []byte, ok bool) {
 			return nil, false
 		}
 		if !bytes.Equal(eR.bz, eG.bz) {
-			c.violation("encoder-bytes-differ", m.d, len(m.d), "reflect="+hx(eR.bz)+" genproto2="+hx(eG.bz))
+			c.vviolation("encoder-bytes-differ", m, eR.bz, "reflect="+hx(eR.bz)+" genproto2="+hx(eG.bz))
 			return nil, false
 		}
 		n, sr := c.sizeG(p)
 		if sr.failed() || n != len(eG.bz) {
-			c.violation("size-mismatch", m.d, len(m.d), fmt.Sprintf("SizeBinary2=%d (%s) len=%d bytes=%s", n, sr.why(), len(eG.bz), hx(eG.bz)))
+			c.vviolation("size-mismatch", m, eG.bz, fmt.Sprintf("SizeBinary2=%d (%s) len=%d bytes=%s", n, sr.why(), len(eG.bz), hx(eG.bz)))
 		}
 	} else if eR.failed() {
 		c.out("value_unencodable_reflect_only")
@@ -268,7 +340,7 @@ func (c *checker) checkValue(m mv) (enc []byte, ok bool) {
 		// both decoders must reject alike.
 		if c.reg.native {
 			if _, rG := c.decG(enc); !rG.failed() || rG.pan != "" || !strings.Contains(rG.err.Error(), "is not assignable to") {
-				c.violation("encode-only-form/decoders-disagree", m.d, len(m.d), "bytes="+hx(enc)+" reflect "+rR.why()+" | genproto2 "+rG.why())
+				c.vviolation("encode-only-form/decoders-disagree", m, enc, "bytes="+hx(enc)+" reflect "+rR.why()+" | genproto2 "+rG.why())
 				return enc, true
 			}
 		}
@@ -276,22 +348,22 @@ func (c *checker) checkValue(m mv) (enc []byte, ok bool) {
 		return enc, true
 	}
 	if rR.failed() {
-		c.violation("roundtrip-decode-fails/reflect", m.d, len(m.d), "bytes="+hx(enc)+" "+rR.why())
+		c.vviolation("roundtrip-decode-fails/reflect", m, enc, "bytes="+hx(enc)+" "+rR.why())
 		return enc, true
 	}
 	re := c.encR(dR)
 	if re.failed() || !bytes.Equal(re.bz, enc) {
-		c.violation("roundtrip-value-differs/reflect", m.d, len(m.d), "bytes="+hx(enc)+" reencoded="+hx(re.bz)+" "+re.why())
+		c.vviolation("roundtrip-value-differs/reflect", m, enc, c.rtCause(re, p, dR)+"bytes="+hx(enc)+" reencoded="+hx(re.bz)+" "+re.why())
 	}
 	if c.reg.native {
 		dG, rG := c.decG(enc)
 		if rG.failed() {
-			c.violation("roundtrip-decode-fails/genproto2", m.d, len(m.d), "bytes="+hx(enc)+" "+rG.why())
+			c.vviolation("roundtrip-decode-fails/genproto2", m, enc, "bytes="+hx(enc)+" "+rG.why())
 			return enc, true
 		}
 		re := c.encR(dG)
 		if re.failed() || !bytes.Equal(re.bz, enc) {
-			c.violation("roundtrip-value-differs/genproto2", m.d, len(m.d), "bytes="+hx(enc)+" reencoded="+hx(re.bz)+" "+re.why())
+			c.vviolation("roundtrip-value-differs/genproto2", m, enc, c.rtCause(re, p, dG)+"bytes="+hx(enc)+" reencoded="+hx(re.bz)+" "+re.why())
 		}
 		if d := structDiff(dR.Elem(), dG.Elem(), c.reg.rt.Name(), 0); d != "" {
 			c.out("decoders_structurally_differ(amino-equal)")
@@ -304,9 +376,9 @@ func (c *checker) checkValue(m mv) (enc []byte, ok bool) {
 	js := guard(func() ([]byte, error) { return c.cdc.JSONMarshal(p.Elem().Interface()) })
 	if js.failed() {
 		if js.pan != "" {
-			c.violation("json-encode-panics", m.d, len(m.d), js.why())
+			c.vviolation("json-encode-panics", m, enc, js.why())
 		} else {
-			c.violation("json-encode-fails", m.d, len(m.d), js.why())
+			c.vviolation("json-encode-fails", m, enc, js.why())
 		}
 		return enc, true
 	}
@@ -317,12 +389,12 @@ func (c *checker) checkValue(m mv) (enc []byte, ok bool) {
 		if jd.pan != "" {
 			cl = "json-decode-panics"
 		}
-		c.violation(cl, m.d, len(m.d), "json="+string(js.bz)+" "+jd.why())
+		c.vviolation(cl, m, enc, "json="+string(js.bz)+" "+jd.why())
 		return enc, true
 	}
 	rj := c.encR(q)
 	if rj.failed() || !bytes.Equal(rj.bz, enc) {
-		c.violation("json-roundtrip-value-differs", m.d, len(m.d), "json="+string(js.bz)+" binary="+hx(enc)+" after="+hx(rj.bz)+" "+rj.why())
+		c.vviolation("json-roundtrip-value-differs", m, enc, c.rtCause(rj, p, q)+"json="+string(js.bz)+" binary="+hx(enc)+" after="+hx(rj.bz)+" "+rj.why())
 		return enc, true
 	}
 	c.out("value_ok")
@@ -382,7 +454,11 @@ func (c *checker) checkBytes(bs []byte) {
 	if c.reg.native {
 		e2 := c.encR(dG)
 		if e2.failed() || !bytes.Equal(e1.bz, e2.bz) {
-			c.violation("decoders-disagree-on-value", hx(bs), len(bs), "reflect-decoded="+hx(e1.bz)+" genproto2-decoded="+hx(e2.bz)+" "+e2.why())
+			cause := ""
+			if !e2.failed() {
+				cause = c.valueCause("decoders disagree on value", dR.Elem(), dG.Elem())
+			}
+			c.violation("decoders-disagree-on-value", hx(bs), len(bs), cause+"reflect-decoded="+hx(e1.bz)+" genproto2-decoded="+hx(e2.bz)+" "+e2.why())
 			return
 		}
 		// encoder parity on the decoded values too (values reachable only through decoding)
